@@ -10,7 +10,7 @@ T1_MODULES = {
     "C03": ["vt.contracts.utils_maxcounter", "vt.contracts.legs_rules", "vt.contracts.core_stats"],
     "C04": ["vt.contracts.utils_maxcounter", "vt.contracts.legs_rules", "vt.contracts.core_stats", "vt.contracts.syntactic"],
     "C06": ["vt.contracts.core_slicing"],
-    "C07": ["vt.contracts.utils_maxcounter", "vt.contracts.syntactic"],
+    "C07": ["vt.contracts.utils_maxcounter", "vt.contracts.syntactic", "vt.contracts.slicer_costs"],
     "C09": ["vt.contracts.con_cost"],
     "C10": ["vt.contracts.path_convert"],
     "C14": ["vt.contracts.reusable_policy"],
